@@ -6,6 +6,7 @@ import IgrisModel.C12.LemDprint
 import IgrisModel.C12.LemF32
 import IgrisModel.C12.LemEntry
 import IgrisModel.C12.LemAuto
+import IgrisModel.C12.LemTotal
 /-!
   C12 — property theorems.
 
@@ -814,5 +815,33 @@ theorem ftoa_auto_precision_within_one_unit (x : F32) (prec : Int) (hauto : prec
 example : ((-1 : Int) < 0) ∧ (⟨0x42c80001⟩ : F32).Fin ∧ absQ (⟨0x42c80001⟩ : F32).val < 2147483648 := by
   refine ⟨by decide, ?_, by decide +kernel⟩
   unfold F32.Fin FinEnc; decide +kernel
+
+/-! ## K. round 3 — totality of the double parsers on NUL-terminated texts; the twin of igris_ftoa -/
+
+/-- TOTALITY (next to the grammar theorems, which are about texts of the form literal ++ tail): for EVERY
+    arithmetic instance and EVERY text that contains a NUL — whether or not it starts with a literal —
+    igris_atof64 is defined (the model's `none`, a read behind the allocation, does not occur: nothing behind the
+    NUL is read) and the reported end is the length of a NUL-free prefix of the text, i.e. the end pointer lies
+    inside the text, at or before the first NUL -/
+theorem igris_atof64_total {F : Type} [FloatLike F] (s : List Nat) (h : 0 ∈ s) :
+    ∃ (v : F) (pre r : List Nat), s = pre ++ r ∧ 0 ∉ pre ∧ 0 ∈ r ∧ igrisAtof64 s = some (v, pre.length) :=
+  igrisAtof64_total s h
+
+example : (0 : Nat) ∈ [45, 46, 120, 0, 7] := by decide
+
+/-- the same for igris_strtod, compat strtod and compat atof (default build) -/
+theorem double_entry_points_total {F : Type} [FloatLike F] (s : List Nat) (h : 0 ∈ s) :
+    (∃ (v : F) (pre r : List Nat), s = pre ++ r ∧ 0 ∉ pre ∧ 0 ∈ r ∧ igrisStrtod s = some (v, pre.length)) ∧
+    (∃ (v : F) (pre r : List Nat), s = pre ++ r ∧ 0 ∉ pre ∧ 0 ∈ r ∧ compatStrtod s = some (v, pre.length)) ∧
+    (∃ v : F, compatAtof s = some v) := by
+  refine ⟨igrisAtof64_total s h, igrisAtof64_total s h, ?_⟩
+  obtain ⟨v, pre, r, _, _, _, e⟩ := igrisAtof64_total (F := F) s h
+  exact ⟨v, by unfold compatAtof; rw [e]; rfl⟩
+
+/-- igris_ftoa of the WITHOUT_ATOF64 build (argument type float32_t: a double is converted at the call) is the
+    same function of a double argument as igris_f64toa / igris_ftoa of the default build: `f64toa_error_bound`
+    and the renderer theorems apply to it verbatim -/
+theorem igris_ftoa32_is_f64toa {F D : Type} [FloatLike F] (cvt : D → F) (d : D) (p : Int) :
+    igrisFtoa32 cvt d p = f64toa cvt d p := rfl
 
 end Igris.C12
